@@ -15,6 +15,7 @@ import (
 	"github.com/taurusgroup/multi-party-sig/pkg/party"
 	"github.com/taurusgroup/multi-party-sig/pkg/pool"
 	"github.com/taurusgroup/multi-party-sig/pkg/protocol"
+	"github.com/taurusgroup/multi-party-sig/protocols/doerner"
 	"github.com/taurusgroup/multi-party-sig/verifharness/protos"
 )
 
@@ -278,6 +279,9 @@ func pooledSession(primes string, seed int) string {
 
 // sharedKeySessions: two signing sessions of the same parties run at the same time on the same Config objects.
 func sharedKeySessions(seed int) string {
+	if seed%3 == 2 {
+		return sharedDoernerSessions(seed)
+	}
 	ids := []party.ID{"a", "b", "c"}
 	kg, err := protos.Run(protos.FrostKeygen(ids, 1, seed%2 == 1, []byte("race-kg")), protos.RunOpts{Seed: fmt.Sprintf("race%d", seed)})
 	if err != nil || !kg.AllDone() {
@@ -295,6 +299,32 @@ func sharedKeySessions(seed int) string {
 	}
 	wg.Wait()
 	return strings.TrimSpace(out[0] + " " + out[1])
+}
+
+// sharedDoernerSessions: three two-party signing sessions at the same time on the same configurations (one OT setup,
+// distinct session ids): everything the sessions share - the setup, package-level state - is only read.
+func sharedDoernerSessions(seed int) string {
+	kg, err := protos.Run(protos.DoernerKeygen("a", "b", []byte("race-kg")), protos.RunOpts{Seed: fmt.Sprintf("race-d%d", seed)})
+	if err != nil || !kg.AllDone() {
+		return ""
+	}
+	cr, ok1 := kg.Results["a"].(*doerner.ConfigReceiver)
+	cs, ok2 := kg.Results["b"].(*doerner.ConfigSender)
+	if !ok1 || !ok2 {
+		return ""
+	}
+	var wg sync.WaitGroup
+	out := make([]string, 3)
+	for k := range out {
+		k := k
+		wg.Add(1)
+		go func() {
+			defer wg.Done()
+			out[k] = runSession(protos.DoernerSign("a", "b", cr, cs, []byte(fmt.Sprintf("message %d", k)), []byte(fmt.Sprintf("race-s%d", k))), 60*time.Second)
+		}()
+	}
+	wg.Wait()
+	return strings.TrimSpace(strings.Join(out, " "))
 }
 
 // stopStorm races the calls that END a session against each other on many fresh handlers: two goroutines
